@@ -173,8 +173,10 @@ pub fn check_as(prop: &str, c: &SrcCase, probe: &Probe, nontrivial: &dyn Fn(&Pre
         if l.attrs != t.attrs {
             return Verdict::Fail(show(&format!("block #{i} attributes {:?}, written {:?}", l.attrs, t.attrs), &out));
         }
-        let want_name = t.attrs.get("name").cloned().unwrap_or_else(|| "(unnamed)".into());
-        if l.name != want_name {
+        // (the label shown for a block without a `name` attribute is not part of the statement)
+        if let Some(want_name) = t.attrs.get("name")
+            && &l.name != want_name
+        {
             return Verdict::Fail(show(&format!("block #{i} name {:?}, expected {:?}", l.name, want_name), &out));
         }
     }
